@@ -114,6 +114,13 @@ func Witnesses() []*Case {
 	for i, t := range []string{" 1 ", "[1, 2]", "{ }", "\t\"a\" ", "[ ]", " null", "\n0", "{\"a\": 1}", "{", "1 2", "01", "[1,]"} {
 		add(fmt.Sprintf("raw-short%d", i), json.RawMessage(t))
 	}
+	for i, t := range []string{"[1,2,]", "{\"a\":}", "nul", "{\"x\":01}", "[1 2]", "{\"a\" 1}", "\"\\x\"", "-", "1.e2", "[\"a\",]"} {
+		add(fmt.Sprintf("raw-dense%d", i), json.RawMessage(t))
+		add(fmt.Sprintf("raw-dense-field%d", i), struct {
+			A int
+			R json.RawMessage
+		}{1, json.RawMessage(t)})
+	}
 	add("raw-nil", json.RawMessage(nil))
 	add("raw-bad", json.RawMessage(`{"a":`))
 	add("raw-utf8", json.RawMessage("\"a\xffb\""))
@@ -201,6 +208,23 @@ func Witnesses() []*Case {
 	add("map-nstr", map[tygen.NStr]tygen.NInt{"k": 1})
 	// strings
 	add("str-long", strings.Repeat("a", 5000)+"\"")
+	// long runs of characters that need 6-byte escapes: the quoting buffer grows more than once
+	for _, n := range []int{700, 1500, 3000, 4100, 9000} {
+		ctl := strings.Repeat("\x01\x02", n/2)
+		add(fmt.Sprintf("str-ctl-%d", n), ctl)
+		add(fmt.Sprintf("tv-ctl-%d", n), tygen.TV{S: ctl})
+		add(fmt.Sprintf("tp-ctl-%d", n), &tygen.TP{S: ctl + "\""})
+		add(fmt.Sprintf("key-ctl-%d", n), map[string]int{ctl: 1, ctl + "\x03": 2})
+		add(fmt.Sprintf("tvkey-ctl-%d", n), map[tygen.TV]int{{S: ctl}: 1})
+		add(fmt.Sprintf("quoted-ctl-%d", n), struct {
+			S string `json:"s,string"`
+		}{strings.Repeat("\x01", n)})
+	}
+	// recursive types with pointer-receiver Marshaler fields, by value and by pointer
+	add("recjp-val", tygen.RecJP{J: tygen.JP{A: 1}, Next: &tygen.RecJP{J: tygen.JP{A: 2}}})
+	add("recjp-ptr", &tygen.RecJP{J: tygen.JP{A: 1}, Next: &tygen.RecJP{J: tygen.JP{A: 2}}})
+	add("recjp-slice", []tygen.RecJP{{J: tygen.JP{A: 1}, Next: &tygen.RecJP{J: tygen.JP{A: 2}}}})
+	add("recjp-map", map[string]tygen.RecJP{"a": {J: tygen.JP{A: 1}, Next: &tygen.RecJP{J: tygen.JP{A: 2}}}})
 	add("str-esc", "\x00\x01\b\t\n\v\f\r\x1f \"\\/\x7f\u0080  <>&")
 	add("str-bad", "a\xffb\xc0\xafc\xed\xa0\x80\xf4\x90\x80\x80\xe2\x80")
 	add("bytes", [][]byte{nil, {}, {1}, {1, 2}, {1, 2, 3}, []byte(strings.Repeat("\xfa", 100))})
